@@ -512,7 +512,7 @@ nextRule:
 				if ecRules[ecRuleIdx] != ecRules[j] {
 					continue
 				}
-				fin, err := handleECRule(i, j, payloadParts, ecRules[ecRuleIdx])
+				fin, err := handleECRule(len(repRules)+j, j, payloadParts, ecRules[ecRuleIdx])
 				if err != nil {
 					return err
 				}
